@@ -4,6 +4,7 @@ import PetgraphModel.Oracle.C13Iso
 import PetgraphModel.Model.C13Vf2
 import PetgraphModel.Model.C13Vf2Side
 import PetgraphModel.Model.C13Vf2Link
+import PetgraphModel.Model.C13Hint
 /-
 C13 driver.  Per case and per *round* (one choice of storage encodings / index labelings):
 
@@ -16,6 +17,30 @@ C13 driver.  Per case and per *round* (one choice of storage encodings / index l
   iter <nm> <em>     => none | some <m,m,..|-> end|more      subgraph_isomorphisms_iter, in yield order;
                                             a mapping is `i.j.k` (position = abstract g0 node, value = abstract
                                             g1 node), the empty mapping is `e`; `more` = cut off by the harness
+
+WAVE 6 (corners of the public surface; `docs/C13_api.md`):
+
+  case <k> … prof=debug|release             the build profile that produced the answers (no expected answer of
+                                            this vertical depends on it: isomorphism.rs has one `debug_assert!`
+                                            without side effect and no arithmetic that can overflow)
+  iter … => some <m,..> revived             `next()` yielded again after it had returned `None` ("each once")
+  hint <at> <nm> <em> => none | panic | <c> <lo> <hi|inf>
+                                            `size_hint()` of a fresh iterator after `c = min(at, #items)` calls of
+                                            `next()`; judged by `judgeHint` (lo ≤ remaining ≤ hi, remaining =
+                                            |subIsoAll P| − c), mirrored by `sizeHintModel`
+  bhint <nm> <em>     => none | panic | 0 <lo> <hi|inf>     the same on a pair too big to enumerate (`judgeHintBig`)
+  biso|bsub [<nm> <em>] => true|false       pairs too big to enumerate: judged by the PROVED mirror model
+                                            (`C13_checked_model_eq_oracle`: whenever the run-time checks pass and the
+                                            call returns, the model's answer is the definitional oracle's)
+  biter <k> <nm> <em> => none | some <m,..> end|cut        the first k yielded vectors of a big pair: every vector is
+                                            checked to be an embedding (`judgePrefix`), exact comparison with the
+                                            model's first k
+  iterlaw <name> …    => ok | VIOLATED <why>               laws of the `Iterator` contract checked by the harness against
+                                            the implementation itself (other ways of consuming the iterator agree
+                                            with `next`); the driver expects `ok`
+  The encodings now include `Reversed<&G>` (the g0/g1 line is the view THROUGH the adaptor of the reversed
+  storage), `&Frozen<G>`, `Graph<_,_,_,u16|usize>`, `GraphMap` with a non-default hasher, `()` and `f32`
+  weights (predicates `feq`/`fne`/`fle`: IEEE comparisons, weight code 2 = NaN).
 
 Every answer is judged against the definitional oracle on the ABSTRACT graphs (`Oracle/C13Iso.lean`, proved
 in `Theorems/C13.lean`); the mirror model of VF2 (`Model/C13Vf2.lean`) run on the concrete index labelings
@@ -46,6 +71,10 @@ structure DState where
   nw1 : List Int := []
   ok0 : Bool := false
   ok1 : Bool := false
+  /-- cache: the predicates of the last `iter` request of this round and the number of embeddings the oracle
+  found for it (`(subIsoAll (problem d nm em)).length`), reused by the `hint` lines that follow it -/
+  lastPreds : List String := []
+  lastAll : Nat := 0
 
 /-- the view's neighbour lists describe the abstract graph (as multisets) -/
 def viewOkB (v : View) : Bool :=
@@ -61,6 +90,10 @@ def parsePred (s : String) : Option (Int → Int → Bool) :=
   | "eq" => some fun a b => a == b
   | "ne" => some fun a b => a != b
   | "le" => some fun a b => decide (a ≤ b)
+  -- IEEE comparisons of `f32` weights; the protocol codes a weight `≥ 2` as NaN
+  | "feq" => some fun a b => a < 2 && b < 2 && a == b
+  | "fne" => some fun a b => !(a < 2 && b < 2 && a == b)
+  | "fle" => some fun a b => a < 2 && b < 2 && decide (a ≤ b)
   | _ => none
 
 /-- the predicates of a request: none for the plain functions (the model then runs with the matchers disabled),
@@ -123,6 +156,60 @@ def parseIterAnswer (impl : String) : Option (Option (List (List Nat)) × Bool) 
     else none
   | _ => none
 
+/-- every vector of a prefix of the iterator's output is an embedding of the abstract problem, and no vector
+occurs twice (polynomial: no enumeration) -/
+def judgePrefix (P : Problem) (l : List (List Nat)) : Bool :=
+  l.all (fun v => v.length == P.g0.nodes.length && v.all (fun b => P.g1.nodes.contains b) && decide v.Nodup
+    && embedsB P (mapOf P.g0.nodes v))
+  && decide l.Nodup
+
+/-- the finding D34 (open): `size_hint` of the iterator of `subgraph_isomorphisms_iter` -/
+def d34 (what : String) : String :=
+  s!"KNOWN D34 size_hint of the iterator returned by subgraph_isomorphisms_iter: {what}"
+
+/-- verdict on `hint <at> …` (small pair: the oracle enumerates) -/
+def hintVerdict (all : Nat) (n0 : Nat) (early : Bool) (at_ : Nat) (impl : String) : String :=
+  let model := sizeHintModel n0
+  let c := min at_ all
+  let modelText := if early then "none" else match model with | none => "panic" | some _ => s!"{c} {showHint model}"
+  match splitWords impl with
+  | ["none"] =>
+    if all != 0 then s!"SPECFAIL subgraph_isomorphisms_iter returned None, {all} embeddings exist" else cmpExact modelText impl
+  | ["panic"] =>
+    if !early && model.isNone then d34 s!"panics for a pattern with {n0} nodes (upper_bounds[21] is out of bounds)"
+    else "SPECFAIL size_hint (or a next() before it) panicked"
+  | ci :: rest =>
+    match ci.toNat?, parseHint rest with
+    | some ci, some (lo, hi) =>
+      if ci != c then
+        s!"SPECFAIL the iterator yielded {ci} items in {at_} calls of next(), {all} embeddings exist"
+      else if judgeHintN all ci lo hi then cmpExact modelText impl
+      else if some (lo, hi) == model && decide (lo ≤ all - ci) then
+        d34 s!"({showHint (some (lo, hi))}) after {ci} items, but {all - ci} more mappings are yielded: the upper bound is n0! = {n0}! although up to n1!/(n1-n0)! mappings exist"
+      else s!"SPECFAIL size_hint = ({showHint (some (lo, hi))}) after {ci} of {all} items: {all - ci} items remain"
+    | _, _ => s!"SPECFAIL malformed answer {impl}"
+  | _ => s!"SPECFAIL malformed answer {impl}"
+
+/-- verdict on `bhint …` (pair too big to enumerate) -/
+def bhintVerdict (n0 n1 : Nat) (early : Bool) (impl : String) : String :=
+  let model := sizeHintModel n0
+  let modelText := if early then "none" else match model with | none => "panic" | some _ => s!"0 {showHint model}"
+  match splitWords impl with
+  | ["none"] => cmpExact modelText impl
+  | ["panic"] =>
+    if !early && model.isNone then d34 s!"panics for a pattern with {n0} nodes (upper_bounds[21] is out of bounds)"
+    else "SPECFAIL size_hint panicked"
+  | ["0", los, his] =>
+    match parseHint [los, his] with
+    | some (lo, hi) =>
+      if early then s!"SPECFAIL an iterator although the pattern has more nodes or edges than the target"
+      else if judgeHintBig n0 n1 lo hi then cmpExact modelText impl
+      else if some (lo, hi) == model then
+        d34 s!"({showHint (some (lo, hi))}): the upper bound n0! = {n0}! is below the number n1!/(n1-n0)! of injections of {n0} into {n1} nodes"
+      else cmpExact modelText impl
+    | none => s!"SPECFAIL malformed answer {impl}"
+  | _ => s!"SPECFAIL malformed answer {impl}"
+
 def readGraph (req : List String) : Option (View × List Int × Option String) := do
   let v ← parseView req
   let nw := parseInts ((field? req "nw").getD "-")
@@ -147,6 +234,60 @@ def boolVerdict (expected : Bool) (model : Option Bool) (I : Vf2.Inst) (impl : S
     | none => fuelVerdict I what
     | some b => cmpExact (showBool b) impl
 
+/-- verdict on a Boolean answer for a pair too big to enumerate: the judge is the PROVED mirror model -/
+def boolVerdictBig (model : Option Bool) (I : Vf2.Inst) (impl : String) (what : String) : String :=
+  if impl == "panic" then s!"SPECFAIL {what} panicked"
+  else if impl != "true" && impl != "false" then s!"SPECFAIL {what}: answer {impl}"
+  else match model with
+    | none => fuelVerdict I what
+    | some b =>
+      if impl == showBool b then "ok"
+      else s!"SPECFAIL {what} returned {impl}; the mirror model, whose answer is proved to be the definition's on every instance that passes the run-time checks (C13_checked_model_eq_oracle), returns {showBool b}"
+
+/-- the model's first `k` yielded vectors and whether the iterator then ended (`iterLoopR` with cap `k`) -/
+def iterPrefixR (I : Vf2.Inst) (fuel k : Nat) : Option (Option (List (List Nat) × Bool)) :=
+  if I.g0.n > I.g1.n || I.g0.ecount > I.g1.ecount then some none
+  else (Vf2.iterLoopR I fuel k (Vf2.M.init I) []).map some
+
+/-- `none` / `some <maps> end|cut` -/
+def parsePrefixAnswer (impl : String) : Option (Option (List (List Nat) × Bool)) :=
+  match splitWords impl with
+  | ["none"] => some none
+  | ["some", maps, fin] =>
+    let toks := if maps == "-" then [] else maps.splitOn ","
+    let ms := toks.filterMap parseMapping
+    if ms.length != toks.length then none
+    else if fin == "end" then some (some (ms, true))
+    else if fin == "cut" then some (some (ms, false))
+    else none
+  | _ => none
+
+/-- verdict on `biter <k> …`: the first `k` vectors of a pair too big to enumerate -/
+def prefixVerdict (P : Problem) (I : Vf2.Inst) (k : Nat) (impl : String) : String :=
+  if impl == "panic" then "SPECFAIL subgraph_isomorphisms_iter panicked" else
+  match parsePrefixAnswer impl with
+  | none => s!"SPECFAIL malformed answer {impl}"
+  | some ans =>
+    let vs := match ans with | none => [] | some (l, _) => l
+    if !judgePrefix P vs then
+      s!"SPECFAIL subgraph_isomorphisms_iter yielded a vector that is not an induced-subgraph embedding, or one vector twice: [{showMappings vs}]"
+    else if vs.length > k then s!"SPECFAIL malformed answer: more than {k} vectors"
+    else match iterPrefixR I Vf2.bigFuel k with
+      | none => fuelVerdict I "subgraph_isomorphisms_iter (one of its next() calls)"
+      | some mans =>
+        let mvs := match mans with | none => [] | some (l, _) => l
+        let mend := match mans with | none => true | some (_, e) => e
+        let iend := match ans with | none => true | some (_, e) => e
+        -- the model's drained list is complete (`C13_vf2_iter_checked`): an iterator that ends must have
+        -- yielded as many vectors as the model; one that is cut off yielded k of at least k
+        if iend != mend || vs.length != mvs.length then
+          s!"SPECFAIL subgraph_isomorphisms_iter yielded {vs.length} vectors and {if iend then "ended" else "had more"}; the proved mirror model yields {mvs.length} and {if mend then "ends" else "has more"} (first {k})"
+        else
+          let show_ := fun (a : Option (List (List Nat) × Bool)) => match a with
+            | none => "none"
+            | some (l, e) => s!"some {showMappings l} {if e then "end" else "cut"}"
+          cmpExact (show_ mans) (show_ ans)
+
 def step (d : DState) (req : List String) (impl : String) : DState × String :=
   match req with
   | "case" :: k :: _ => ({}, s!"case {k}")
@@ -154,12 +295,38 @@ def step (d : DState) (req : List String) (impl : String) : DState × String :=
     match readGraph req with
     | none => ({ d with ok0 := false }, "SPECFAIL unparsable g0 line")
     | some (v, nw, why) =>
-      ({ d with v0 := v, nw0 := nw, ok0 := why.isNone }, match why with | none => "ok" | some w => s!"SPECFAIL g0: {w}")
+      ({ d with v0 := v, nw0 := nw, ok0 := why.isNone, lastPreds := [] }, match why with | none => "ok" | some w => s!"SPECFAIL g0: {w}")
   | "g1" :: _ =>
     match readGraph req with
     | none => ({ d with ok1 := false }, "SPECFAIL unparsable g1 line")
     | some (v, nw, why) =>
-      ({ d with v1 := v, nw1 := nw, ok1 := why.isNone }, match why with | none => "ok" | some w => s!"SPECFAIL g1: {w}")
+      ({ d with v1 := v, nw1 := nw, ok1 := why.isNone, lastPreds := [] }, match why with | none => "ok" | some w => s!"SPECFAIL g1: {w}")
+  | "profile" :: _ => (d, "ok")
+  | "iterlaw" :: _ =>
+    (d, if impl == "ok" then "ok" else s!"SPECFAIL the iterator of subgraph_isomorphisms_iter breaks a law of the Iterator contract: {impl}")
+  | "hint" :: at_ :: rest =>
+    if !(d.ok0 && d.ok1) then (d, "SPECFAIL query without a valid graph pair") else
+    match at_.toNat?, parsePreds rest with
+    | some at_, some (nm, em) =>
+      if rest.isEmpty then (d, s!"SPECFAIL bad request {req}") else
+      match queryFail d nm em true with
+      | some w => (d, s!"SPECFAIL {w}")
+      | none =>
+        let m := mkInst d nm em true
+        -- the number of embeddings: `(subIsoAll (problem d nm em)).length`, from the `iter` line of the same
+        -- round and predicates if there was one
+        let all := if d.lastPreds == rest then d.lastAll else (subIsoAll (problem d nm em)).length
+        (d, hintVerdict all m.g0.n (m.g0.n > m.g1.n || m.g0.ecount > m.g1.ecount) at_ impl)
+    | _, _ => (d, s!"SPECFAIL bad request {req}")
+  | "biter" :: k :: rest =>
+    if !(d.ok0 && d.ok1) then (d, "SPECFAIL query without a valid graph pair") else
+    match k.toNat?, parsePreds rest with
+    | some k, some (nm, em) =>
+      if rest.isEmpty then (d, s!"SPECFAIL bad request {req}") else
+      match queryFail d nm em true with
+      | some w => (d, s!"SPECFAIL {w}")
+      | none => (d, prefixVerdict (problem d nm em) (mkInst d nm em true) k impl)
+    | _, _ => (d, s!"SPECFAIL bad request {req}")
   | q :: rest =>
     if !(d.ok0 && d.ok1) then (d, "SPECFAIL query without a valid graph pair") else
     match parsePreds rest with
@@ -178,12 +345,20 @@ def step (d : DState) (req : List String) (impl : String) : DState × String :=
       | "sub" | "subm" =>
         if impl == "panic" then (d, "SPECFAIL is_isomorphic_subgraph panicked") else
         (d, boolVerdict (subIsoB P) (Vf2.subModelR m Vf2.bigFuel) m impl "is_isomorphic_subgraph")
+      | "biso" => (d, boolVerdictBig (Vf2.isoModelR m Vf2.bigFuel) m impl "is_isomorphic")
+      | "bsub" => (d, boolVerdictBig (Vf2.subModelR m Vf2.bigFuel) m impl "is_isomorphic_subgraph")
+      | "bhint" =>
+        if !semantic then (d, s!"SPECFAIL bad request {req}") else
+        (d, bhintVerdict m.g0.n m.g1.n (m.g0.n > m.g1.n || m.g0.ecount > m.g1.ecount) impl)
       | "iter" =>
         if impl == "panic" then (d, "SPECFAIL subgraph_isomorphisms_iter panicked") else
+        if (splitWords impl).getLast? == some "revived" then
+          (d, "SPECFAIL subgraph_isomorphisms_iter: next() yielded a vector again after it had returned None (every mapping is to be yielded once)") else
         match parseIterAnswer impl with
         | none => (d, s!"SPECFAIL malformed answer {impl}")
         | some (ans, more) =>
           let all := subIsoAll P
+          let d := { d with lastPreds := rest, lastAll := all.length }
           if more then
             (d, s!"SPECFAIL subgraph_isomorphisms_iter yields more vectors than there are injections ({all.length} mappings exist)")
           else if judgeIter P ans then
